@@ -160,16 +160,18 @@ def run_property(pid, tier, seed, repo, root, t0):
     for r in units:
         for h in r.get("extraction", {}).get("trusted_scan", []):
             trusted.append("verus:%s generated line %s" % (r["unit"], h))
-    bounded = [{"name": o["name"], "bound": o["bound"]} for o in obligations
-               if o.get("bound") and not str(o["bound"]).startswith("full")]
+    bounded = [{"name": o["name"], "bound": o["bound"], "status": o["status"]} for o in obligations if _is_bounded(o)]
     samples = [{"obligation": o["name"], "backend": o["backend"], "status": o["status"], "bound": o.get("bound"),
                 "clause": o.get("text"), "solver_s": o.get("solver_s", (o.get("solver_ms") or 0) / 1000.0)}
                for o in obligations]
     cov = {
         # obligations that must hold on this tree; those suppressed by a committed known finding are
         # expected to fail and are counted separately
-        "obligations": len([o for o in obligations if not o.get("known_finding")]),
-        "discharged": len(discharged),
+        # ... and BOUNDED obligations are never counted as proved: they are listed under `bounded`
+        "obligations": len([o for o in obligations if not o.get("known_finding") and not _is_bounded(o)]),
+        "discharged": len([o for o in discharged if not _is_bounded(o)]),
+        "bounded_obligations": len([o for o in obligations if not o.get("known_finding") and _is_bounded(o)]),
+        "bounded_discharged": len([o for o in discharged if _is_bounded(o)]),
         "expected_failing_known_findings": [o["name"] for o in obligations if o.get("known_finding")],
         "checker_cmd": " ; ".join(r.get("checker_cmd", "") for r in units),
         "trusted_base": trusted,
@@ -213,6 +215,11 @@ def run_property(pid, tier, seed, repo, root, t0):
     print("OK property=%s tier=%s obligations=%d discharged=%d known_findings=%d wall=%.1fs" % (
         pid, tier, len(obligations), len(discharged), len(known_lines), wall))
     return 0
+
+
+def _is_bounded(o):
+    b = o.get("bound")
+    return bool(b) and "bounded" in str(b)
 
 
 def _why(o):
